@@ -18,6 +18,7 @@ from simkit import worker
 
 VERIF = os.path.dirname(os.path.dirname(os.path.abspath(__file__)))
 KNOWN = os.path.join(VERIF, 'known_findings.json')
+MAX_SHRUNK_GROUPS = 8  # a change that breaks everything yields dozens of signatures: minimise the first few, report all
 
 
 def log(*a):
@@ -256,7 +257,7 @@ def main(argv=None):
                 small, t = sshrink.ddmin_ops(holder, lambda h: fails_seq(list(h['ops']) + [plan]), max_tests=60)
                 prelude = list(small['ops']) if fails_seq(list(small['ops']) + [plan]) else prelude
                 tests += t
-        if not a.no_shrink:
+        if not a.no_shrink and len(reported) < MAX_SHRUNK_GROUPS:
             plan, t = sshrink.shrink(plan, lambda p: fails_seq(prelude + [p]), getattr(engine, 'simplify', None), max_tests=b.get('shrink_tests', 400))
             tests += t
             if len(prelude) == 1:
